@@ -467,8 +467,9 @@ def run_command_case(ctx, enc, world, out, flags, fault="FNone", groups=None, mu
         cmp_after = after
     gterm = "None" if groups is None else "(Some " + clist([f"({cN(enc.g.get(n, 99))}, {cN(p)})" for n, p in groups["model"]]) + ")"
     fterm = fault if fault not in ("FSelect",) else "FSelect"
+    se = res[1] if (real_submit and res[0] == "exit" and handoff) else 0
     idx = ctx.cmd_cmp.add(
-        f"({cbool(flags[0])}, {cbool(flags[1])}, {cbool(flags[2])}, {gterm}, {fterm}, 0%Z, {enc.world(before)})",
+        f"({cbool(flags[0])}, {cbool(flags[1])}, {cbool(flags[2])}, {gterm}, {fterm}, {cZ(se)}, {enc.world(before)})",
         f"({oterm}, {enc.world(cmp_after)})",
         {"scenario": tag, "flags": flags, "fault": fault, "groups": groups and groups["model"], "result": res,
          "before": _slim(before), "after": _slim(cmp_after)})
@@ -537,11 +538,13 @@ def handoff_oracles(ctx, before, handoff, flags, tag):
             probs.append(f"job {n} is not rerun but changed from {old[n]} to {(st, bl)}")
     if handoff["is_complete"]:
         probs.append("is_complete still true")
-    if handoff["submitted_jobs"] != handoff["num_jobs"] - len(rerun):
-        probs.append(f"submitted_jobs={handoff['submitted_jobs']} expected {handoff['num_jobs'] - len(rerun)}")
-    done_others = sum(1 for n, st, _ in before["jobs"] if n not in rerun and st == "done")
-    if handoff["completed_jobs"] != done_others:
-        probs.append(f"completed_jobs={handoff['completed_jobs']} expected {done_others}")
+    # the counters must describe the job table they are written with (status invariant)
+    not_ns = sum(1 for _, st, _ in handoff["jobs"] if st != "not_submitted")
+    if handoff["submitted_jobs"] != not_ns:
+        probs.append(f"submitted_jobs={handoff['submitted_jobs']} but {not_ns} jobs are not NOT_SUBMITTED")
+    done = sum(1 for _, st, _ in handoff["jobs"] if st == "done")
+    if handoff["completed_jobs"] != done:
+        probs.append(f"completed_jobs={handoff['completed_jobs']} but {done} jobs are DONE")
     if not (0 <= handoff["completed_jobs"] <= handoff["submitted_jobs"] <= handoff["num_jobs"]):
         probs.append("counters out of order")
     want_rows = [r[:5] for r in before["rows"] if r[0] not in rerun]
@@ -574,6 +577,8 @@ def rerun_oracles(ctx, world, before, after, rerun, epoch, tag):
     notrun = rerun - set(launches) - canceled_now
     # a rerun job may legitimately not start only if it is canceled or stuck behind a rerun blocker that died again
     for n in sorted(notrun):
+        if n in world.killed_jobs(epoch):
+            continue     # its node died before the job started: missing again
         if not any(b not in rows_after for b in _upstream(depmap, n, rerun)):
             probs.append(f"rerun job {n} was neither launched nor canceled")
     # dependency order: every rerun blocker has a result before the dependent starts
